@@ -125,7 +125,12 @@ pub fn gen_c11(rng: &mut Rng, tier: Tier) -> Result<Value, serde_json::Error> {
         let mut calls = Vec::new();
         for _ in 0..n {
             let keep = 200 + rng.below(800);
-            let mut selection = gen::gen_selection(rng, &cred.claims, keep);
+            // sometimes exactly the empty map, or everything
+            let mut selection = match rng.usize(10) {
+                0 => Map::new(),
+                1 => gen::select_all(&cred.claims),
+                _ => gen::gen_selection(rng, &cred.claims, keep),
+            };
             let kb = match (&hk, rng.usize(4)) {
                 (Some(k), 0) | (Some(k), 1) => Some((gen::gen_session_string(rng), gen::gen_session_string(rng), k.clone(), msg_gen::kb_alg_for(rng, k))),
                 // create_presentation signs with whatever key and algorithm the caller hands in:
